@@ -352,7 +352,53 @@ pub fn gen_mux(seed: u64) -> Scenario {
         sc.clients.push(cs);
     }
     sc.plan.unsolicited = gen_unsolicited(&mut r, 60, &single_tokens);
+    sc.id_table = gen_id_start(&mut r);
+    let start = sc.id_table.as_ref().map(|t| t.0 as i64).unwrap_or(0);
+    keep_ids_apart(&mut sc, start);
     sc
+}
+
+/// IDs used for unsolicited messages and abandons of unknown operations must not fall into the
+/// window of IDs the run will really allocate.
+pub fn keep_ids_apart(sc: &mut Scenario, start: i64) {
+    let fix = |x: i64| -> i64 {
+        if x > start - 10 && x < start + 500 {
+            let y = x + 5000;
+            if y > 2147483647 {
+                x - 5000
+            } else {
+                y
+            }
+        } else {
+            x
+        }
+    };
+    for u in sc.plan.unsolicited.iter_mut() {
+        if let UnsolId::Fixed(x) = &mut u.id {
+            *x = fix(*x);
+        }
+    }
+    for c in sc.clients.iter_mut() {
+        for st in c.steps.iter_mut() {
+            if let Step::Op { op: OpSpec::Abandon(IdRef::Raw(x)), .. } = st {
+                *x = fix(*x as i64) as i32;
+            }
+        }
+    }
+}
+
+/// Position of the ID counter at the start of a run: mostly 0, otherwise around the values where
+/// the INTEGER encoding of the message ID changes length, or anywhere in the ID space.
+pub fn gen_id_start(r: &mut Rng) -> Option<(i32, Vec<i32>)> {
+    match r.below(6) {
+        0 | 1 | 2 => None,
+        3 => {
+            let b = *r.pick(&[127i64, 255, 32767, 65535, 8388607, 16777215]);
+            Some(((b - r.below(12) as i64).max(0) as i32, vec![]))
+        }
+        4 => Some((r.below(2147483000) as i32, vec![])),
+        _ => Some((*r.pick(&[1000, 70000, 20_000_000, 2_000_000_000]), vec![])),
+    }
 }
 
 /// DropHandle may not be inserted between an Open and its stream calls in a way that changes
